@@ -480,7 +480,11 @@ class Program:
                 F = Function(f, src)
                 F.prog = self
                 self.all_functions.append(F)
-                self.functions.setdefault(F.name, F)
+                # the plain name denotes the externally visible definition; a file-local (static) one of the same name is
+                # reachable through "name@file.c" (Program.resolve)
+                cur = self.functions.get(F.name)
+                if cur is None or (cur.static and not F.static):
+                    self.functions[F.name] = F
                 self.functions["%s@%s" % (F.name, os.path.basename(F.file))] = F
 
     def fn(self, name, required=True):
@@ -517,6 +521,14 @@ class Program:
         if path.startswith(self.repo.rstrip("/") + "/"):
             return path[len(self.repo.rstrip("/")) + 1:]
         return path
+
+    def resolve(self, name, from_loc):
+        """key of prog.functions for a call of `name` made at source location from_loc: the definition in the same file if
+        there is one (a static function shadows the external one of the same name), else the plain name"""
+        if not name:
+            return name
+        q = "%s@%s" % (name, os.path.basename((from_loc or "").split(":")[0]))
+        return q if q in self.functions else name
 
     def lib_functions(self):
         for F in self.all_functions:
